@@ -2,6 +2,7 @@ package keeper
 
 import (
 	"encoding/binary"
+	"sort"
 
 	sdkmath "cosmossdk.io/math"
 	assetstypes "github.com/ExocoreNetwork/exocore/x/assets/types"
@@ -99,7 +100,14 @@ func (k Keeper) GetMultipleAssetsPrices(ctx sdk.Context, assets map[string]inter
 	// ret := make(map[string]types.Price)
 	prices = make(map[string]types.Price)
 	info := ""
+	// iterate in a fixed order: the loop below reads the store (gas) and stops at the first asset without an
+	// oracle token, so the map's iteration order must not decide how much was read before that
+	assetIDs := make([]string, 0, len(assets))
 	for assetID := range assets {
+		assetIDs = append(assetIDs, assetID)
+	}
+	sort.Strings(assetIDs)
+	for _, assetID := range assetIDs {
 		// for native token exo, we temporarily use default price
 		if assetID == assetstypes.ExocoreAssetID {
 			prices[assetID] = types.Price{
